@@ -26,7 +26,7 @@ ASSUMPTIONS = ["reference model mc/ref.py (first-match lookup, nearest-within-to
                "np.arange(n)[ix] is the per-dimension oracle for positional access (named by the property)",
                "labels unique within an axis; masks have the axis length"]
 
-AXV = [("i", "inc"), ("i", "dec"), ("i", "shuf"), ("f", "inc"), ("f", "shuf"), ("O", "inc"), ("O", "shuf")]
+AXV = [("i", "inc"), ("i", "dec"), ("i", "shuf"), ("f", "inc"), ("f", "shuf"), ("O", "inc"), ("O", "shuf"), ("f", "bigshuf")]
 LENS = [3, 2, 3, 2]
 NAMES = ["x", "y", "z", "t"]
 
